@@ -12,6 +12,7 @@ import (
 	"strconv"
 	"strings"
 	"sync"
+	"syscall"
 
 	"verif/harness/core"
 
@@ -25,32 +26,78 @@ var (
 	binErr  string
 )
 
-// pgreadBinary builds the CLI from the tree under test (VERIF_REPO), once per harness process, into a
-// scratch directory that main() removes on exit.
+// grandparentPID identifies one sweep of bin/check: the shards are `bash -c "pgmodel … | impl"` children of one runner
+func grandparentPID() int {
+	b, err := os.ReadFile(fmt.Sprintf("/proc/%d/stat", os.Getppid()))
+	if err != nil {
+		return os.Getppid()
+	}
+	s := string(b)
+	if i := strings.LastIndexByte(s, ')'); i >= 0 {
+		f := strings.Fields(s[i+1:])
+		if len(f) > 1 {
+			if n, err := strconv.Atoi(f[1]); err == nil {
+				return n
+			}
+		}
+	}
+	return os.Getppid()
+}
+
+func withDirLock(dir string, f func()) {
+	lf, err := os.OpenFile(filepath.Join(dir, "lock"), os.O_CREATE|os.O_RDWR, 0o644)
+	if err != nil {
+		panic(err)
+	}
+	defer lf.Close()
+	if err := syscall.Flock(int(lf.Fd()), syscall.LOCK_EX); err != nil {
+		panic(err)
+	}
+	defer syscall.Flock(int(lf.Fd()), syscall.LOCK_UN)
+	f()
+}
+
+func readRefs(dir string) int {
+	b, err := os.ReadFile(filepath.Join(dir, "refs"))
+	if err != nil {
+		return 0
+	}
+	n, _ := strconv.Atoi(strings.TrimSpace(string(b)))
+	return n
+}
+
+// pgreadBinary builds the CLI from the tree under test (VERIF_REPO, `go build` with -mod=readonly, output outside the
+// tree) once per sweep: the shard processes of one runner share a scratch directory under a file lock with a
+// reference count; the last one out removes it.
 func pgreadBinary() string {
 	binOnce.Do(func() {
-		d, err := os.MkdirTemp("", "verif-pgread-")
-		if err != nil {
+		d := filepath.Join(os.TempDir(), fmt.Sprintf("verif-pgread-%d", grandparentPID()))
+		if err := os.MkdirAll(d, 0o755); err != nil {
 			binErr = err.Error()
 			return
 		}
-		binDir = d
-		out := filepath.Join(d, "pgread")
-		cmd := exec.Command("go", "build", "-o", out, ".")
-		cmd.Dir = repoDir()
-		env := []string{}
-		for _, e := range os.Environ() {
-			if strings.HasPrefix(e, "GOFLAGS=") || strings.HasPrefix(e, "GOPROXY=") || strings.HasPrefix(e, "GOTOOLCHAIN=") || strings.HasPrefix(e, "GOSUMDB=") {
-				continue
+		withDirLock(d, func() {
+			out := filepath.Join(d, "pgread")
+			refs := readRefs(d)
+			if _, err := os.Stat(out); err != nil || refs == 0 {
+				cmd := exec.Command("go", "build", "-o", out, ".")
+				cmd.Dir = repoDir()
+				env := []string{}
+				for _, e := range os.Environ() {
+					if strings.HasPrefix(e, "GOFLAGS=") || strings.HasPrefix(e, "GOPROXY=") || strings.HasPrefix(e, "GOTOOLCHAIN=") || strings.HasPrefix(e, "GOSUMDB=") {
+						continue
+					}
+					env = append(env, e)
+				}
+				cmd.Env = append(env, "GOFLAGS=-mod=readonly", "GOPROXY=off")
+				if b, err := cmd.CombinedOutput(); err != nil {
+					binErr = fmt.Sprintf("go build failed: %v: %s", err, b)
+					return
+				}
 			}
-			env = append(env, e)
-		}
-		cmd.Env = append(env, "GOFLAGS=-mod=readonly", "GOPROXY=off")
-		if b, err := cmd.CombinedOutput(); err != nil {
-			binErr = fmt.Sprintf("go build failed: %v: %s", err, b)
-			return
-		}
-		binPath = out
+			os.WriteFile(filepath.Join(d, "refs"), []byte(strconv.Itoa(refs+1)), 0o644)
+			binDir, binPath = d, out
+		})
 	})
 	if binPath == "" {
 		panic("cannot build pgread: " + binErr)
@@ -59,7 +106,21 @@ func pgreadBinary() string {
 }
 
 func cleanupBinary() {
-	if binDir != "" {
+	if binDir == "" {
+		return
+	}
+	remove := false
+	withDirLock(binDir, func() {
+		refs := readRefs(binDir) - 1
+		if refs <= 0 {
+			remove = true
+			os.Remove(filepath.Join(binDir, "pgread"))
+			os.Remove(filepath.Join(binDir, "refs"))
+		} else {
+			os.WriteFile(filepath.Join(binDir, "refs"), []byte(strconv.Itoa(refs)), 0o644)
+		}
+	})
+	if remove {
 		os.RemoveAll(binDir)
 	}
 }
@@ -349,6 +410,9 @@ func sortLinesAfterHeader(b []byte, blockPrefix string) string {
 }
 
 func init() {
+	// process spawning (and the one-off build of the binary): no per-input-byte envelope
+	core.SetEnvelope("cli", 0, 0, 0)
+	core.SetEnvelope("repeat_cli", 0, 0, 0)
 	// cli: args = argv (hex tokens, @DIR = the materialised tree), PGDATA set?, the action named by the model, files
 	core.Register("cli", func(args []string) string {
 		bin := pgreadBinary()
